@@ -37,11 +37,28 @@ type c02Step struct {
 	Auto    bool      `json:"auto_cache_recover,omitempty"`
 	Filt    []uint64  `json:"filtered_ids,omitempty"`
 	Handler string    `json:"handler,omitempty"` // none no populate
-	HID     uint64    `json:"handler_pub_id,omitempty"`
-	HP      *c17Popts `json:"handler_pub_opts,omitempty"`
+	HPubs   []c02Pub  `json:"handler_pubs,omitempty"`
+	Race    []c02Pub  `json:"race_pubs,omitempty"` // published from a Broker.History hook right after the subscribe's first read
+	RaceOut []c17Out  `json:"race_outs,omitempty"`
+	HOut    []c17Out  `json:"handler_outs,omitempty"`
+	EpF     uint64    `json:"follower_ep,omitempty"` // pair step: epoch presented by the follower
+	ResF    *c02Res   `json:"follower_res,omitempty"`
 	Full    *c17Out   `json:"full,omitempty"`
 	Full2   *c17Out   `json:"full_after,omitempty"`
 	Res     *c02Res   `json:"res,omitempty"`
+}
+
+type c02Pub struct {
+	ID uint64    `json:"id"`
+	P  *c17Popts `json:"p"`
+}
+
+func c02CoqPubs(ps []c02Pub) string {
+	xs := make([]string, len(ps))
+	for i, p := range ps {
+		xs[i] = vPair(vN(p.ID), c17CoqPopts(p.P))
+	}
+	return vList(xs)
 }
 
 func c02CoqRes(r *c02Res) string {
@@ -64,17 +81,20 @@ func c02CoqStep(s c02Step) string {
 	case "base":
 		return vApp("TBase", c17CoqOp(*s.Op), c17CoqOut(*s.Out))
 	case "stream":
-		return vApp("TStream", vN(uint64(s.Ch)), vN(s.Off), vN(s.Ep), vBool(s.Reject), c02CoqIDs(s.Filt), c17CoqOut(*s.Full), c02CoqRes(s.Res))
+		return vApp("TStream", vN(uint64(s.Ch)), vN(s.Off), vN(s.Ep), vBool(s.Reject), c02CoqIDs(s.Filt),
+			c02CoqPubs(s.Race), c17CoqOuts(s.RaceOut), c17CoqOut(*s.Full), c02CoqRes(s.Res))
+	case "pair":
+		return vApp("TPair", vN(uint64(s.Ch)), vN(s.Off), vN(s.Ep), vN(s.EpF), c02CoqIDs(s.Filt), c17CoqOut(*s.Full), c02CoqRes(s.Res), c02CoqRes(s.ResF))
 	default:
 		h := "HNone"
 		switch s.Handler {
 		case "no":
 			h = "HNo"
 		case "populate":
-			h = vApp("HPopulate", vN(s.HID), c17CoqPopts(s.HP))
+			h = vApp("HPopulate", c02CoqPubs(s.HPubs))
 		}
 		return vApp("TCache", vN(uint64(s.Ch)), vN(s.Off), vN(s.Ep), vBool(s.UseS || s.UseC), c02CoqIDs(s.Filt), h,
-			c17CoqOut(*s.Full), c17CoqOut(*s.Full2), c02CoqRes(s.Res))
+			c02CoqPubs(s.Race), c17CoqOuts(s.RaceOut), c17CoqOuts(s.HOut), c17CoqOut(*s.Full), c17CoqOut(*s.Full2), c02CoqRes(s.Res))
 	}
 }
 
@@ -84,9 +104,10 @@ type c02Scenario struct {
 	serverF bool
 	auto    bool
 	handler string
-	hid     uint64
-	hp      *c17Popts
+	hpubs   []c02Pub
 	hch     int
+	hran    int
+	houts   []c17Out
 	env     *c17Env
 }
 
@@ -98,7 +119,7 @@ type c02Run struct {
 	mark  int
 	pubs  map[uint64][2]bool // id -> (server-visible, client-visible)
 	// counters
-	recTrue, recFalse, errs, withPubs, filteredOut, populated int
+	recTrue, recFalse, errs, withPubs, filteredOut, populated, raced, pairs, populatedFiltered int
 	key                                                      string
 }
 
@@ -136,8 +157,11 @@ func c02Setup(sc *c02Scenario) func(n *Node) {
 		n.OnCacheEmpty(func(e CacheEmptyEvent) (CacheEmptyReply, error) {
 			switch sc.handler {
 			case "populate":
-				p := *sc.hp
-				sc.env.do(c17Op{Kind: "pub", Ch: sc.hch, ID: sc.hid, P: &p})
+				sc.hran++
+				for _, hp := range sc.hpubs {
+					p := *hp.P
+					sc.houts = append(sc.houts, sc.env.do(c17Op{Kind: "pub", Ch: sc.hch, ID: hp.ID, P: &p}))
+				}
 				return CacheEmptyReply{Populated: true}, nil
 			default:
 				return CacheEmptyReply{Populated: false}, nil
@@ -167,18 +191,9 @@ func c02Tags(sv, cv bool) map[string]string {
 	return map[string]string{"s": b(sv), "c": b(cv)}
 }
 
-// subscribe runs one recovering subscribe of a fresh client and records the step.
-func (c *c02Run) subscribe(t testing.TB, st c02Step) {
-	sc := c.sc
-	sc.serverF, sc.auto, sc.handler, sc.hid, sc.hp, sc.hch = st.UseS, st.Auto, st.Handler, st.HID, st.HP, st.Ch
-	if st.Kind == "cache" {
-		sc.mode = RecoveryModeCache
-	} else {
-		sc.mode = RecoveryModeStream
-	}
-	st.Full = c.fullRead(st.Ch)
-	cl := c43NewClient(t, c.node, 1)
-	req := &protocol.SubscribeRequest{Channel: c17ChName(st.Ch), Recover: !st.Auto, Offset: st.Off, Epoch: c.env.epochString(st.Ep)}
+// request performs one subscribe command of a fresh client and decodes the reply.
+func (c *c02Run) request(t testing.TB, cl *Client, st *c02Step, off, ep uint64) *c02Res {
+	req := &protocol.SubscribeRequest{Channel: c17ChName(st.Ch), Recover: !st.Auto, Offset: off, Epoch: c.env.epochString(ep)}
 	if st.Reject {
 		req.Flag = int64(subscriptionFlagRejectUnrecovered)
 	}
@@ -191,6 +206,8 @@ func (c *c02Run) subscribe(t testing.TB, st c02Step) {
 	switch {
 	case err != nil:
 		res.Err = 9000
+	case len(rw.replies) == 0:
+		res.Err = 3010 // no reply: the subscribe ended in a disconnect (DisconnectInsufficientState is the only one reachable here)
 	case len(rw.replies) != 1:
 		res.Err = 9001
 	case rw.replies[0].Error != nil:
@@ -204,20 +221,10 @@ func (c *c02Run) subscribe(t testing.TB, st c02Step) {
 			res.Pubs = append(res.Pubs, [2]uint64{p.Offset, c17ParseID(p.Data)})
 		}
 	}
-	if st.Handler == "populate" {
-		// the handler's publish (if it ran) was recorded by the executor: it belongs to this step
-		if len(c.env.Ops) > c.mark {
-			c.populated++
-			c.pubs[st.HID] = [2]bool{true, true}
-		}
-		c.mark = len(c.env.Ops)
-	}
-	st.Res = res
-	_ = cl.close(DisconnectForceNoReconnect)
-	st.Filt = c.filteredIDs(st.UseS, st.UseC)
-	if st.Kind == "cache" {
-		st.Full2 = c.fullRead(st.Ch)
-	}
+	return res
+}
+
+func (c *c02Run) count(res *c02Res) {
 	switch {
 	case res.Err != 0:
 		c.errs++
@@ -229,6 +236,90 @@ func (c *c02Run) subscribe(t testing.TB, st c02Step) {
 	if len(res.Pubs) > 0 {
 		c.withPubs++
 	}
+}
+
+// subscribe runs one recovering subscribe of a fresh client and records the step.
+func (c *c02Run) subscribe(t testing.TB, st c02Step) {
+	sc := c.sc
+	sc.serverF, sc.auto, sc.handler, sc.hpubs, sc.hch, sc.hran, sc.houts = st.UseS, st.Auto, st.Handler, st.HPubs, st.Ch, 0, nil
+	if st.Kind == "cache" {
+		sc.mode = RecoveryModeCache
+	} else {
+		sc.mode = RecoveryModeStream
+	}
+	st.Full = c.fullRead(st.Ch)
+	if len(st.Race) > 0 {
+		// publications landing between the subscribe's history read and its buffer merge
+		race := st.Race
+		w := c.env.wrap
+		w.mu.Lock()
+		w.hookCh = c17ChName(st.Ch)
+		w.hook = func() {
+			for _, rp := range race {
+				p := *rp.P
+				st.RaceOut = append(st.RaceOut, c.env.do(c17Op{Kind: "pub", Ch: st.Ch, ID: rp.ID, P: &p}))
+			}
+		}
+		w.mu.Unlock()
+	}
+	cl := c43NewClient(t, c.node, 1)
+	st.Res = c.request(t, cl, &st, st.Off, st.Ep)
+	if len(st.Race) > 0 {
+		w := c.env.wrap
+		w.mu.Lock()
+		fired := w.hook == nil
+		w.hook = nil
+		w.mu.Unlock()
+		if fired {
+			c.raced++
+		} else {
+			st.Race = nil // no history read happened: nothing was injected
+		}
+	}
+	st.HOut = sc.houts
+	if st.Handler == "populate" && sc.hran > 0 {
+		c.populated++
+		if st.UseS || st.UseC {
+			c.populatedFiltered++
+		}
+	}
+	c.mark = len(c.env.Ops) // race / handler publications belong to this step
+	_ = cl.close(DisconnectForceNoReconnect)
+	st.Filt = c.filteredIDs(st.UseS, st.UseC)
+	if st.Kind == "cache" {
+		st.Full2 = c.fullRead(st.Ch)
+	}
+	c.count(st.Res)
+	c.steps = append(c.steps, st)
+}
+
+// pair runs two overlapping stream recoveries from the same offset: the leader (current epoch) is
+// held inside its Broker.History call until the follower (another epoch string) has finished or is
+// blocked (it would be if it shared the leader's single-flight call).
+func (c *c02Run) pair(t testing.TB, st c02Step) {
+	sc := c.sc
+	sc.serverF, sc.auto, sc.handler, sc.mode = st.UseS, false, "no", RecoveryModeStream
+	st.Full = c.fullRead(st.Ch)
+	gate := make(chan struct{})
+	w := c.env.wrap
+	w.mu.Lock()
+	w.gateCh, w.gate = c17ChName(st.Ch), gate
+	w.mu.Unlock()
+	clL, clF := c43NewClient(t, c.node, 1), c43NewClient(t, c.node, 2)
+	doneL, doneF := make(chan *c02Res, 1), make(chan *c02Res, 1)
+	go func() { doneL <- c.request(t, clL, &st, st.Off, st.Ep) }()
+	synctest.Wait() // the leader is parked at the gate
+	go func() { doneF <- c.request(t, clF, &st, st.Off, st.EpF) }()
+	synctest.Wait() // the follower has finished, or waits for the leader's flight
+	close(gate)
+	st.Res, st.ResF = <-doneL, <-doneF
+	c.mark = len(c.env.Ops)
+	_ = clL.close(DisconnectForceNoReconnect)
+	_ = clF.close(DisconnectForceNoReconnect)
+	st.Filt = c.filteredIDs(st.UseS, st.UseC)
+	c.count(st.Res)
+	c.count(st.ResF)
+	c.pairs++
 	c.steps = append(c.steps, st)
 }
 
@@ -236,13 +327,15 @@ func c02Case(t *testing.T, w *verifW, i int, cache bool) (*c02Run, int) {
 	r := w.Rand(i)
 	lim := c17Pick(r, 0, 0, 1, 2, 3, 5)
 	metaIdx := r.Intn(4)
+	singleFlight := r.Intn(2) == 0
 	corpus := cache && i < 2
 	if corpus {
 		lim, metaIdx = 0, 2
 	}
 	run := &c02Run{sc: &c02Scenario{}, pubs: map[uint64][2]bool{}}
 	synctest.Test(t, func(t *testing.T) {
-		cfg := Config{RecoveryMaxPublicationLimit: lim, HistoryMetaTTL: []time.Duration{0, 3 * time.Second, 0, 5 * time.Second}[metaIdx]}
+		cfg := Config{RecoveryMaxPublicationLimit: lim, UseSingleFlight: singleFlight,
+			HistoryMetaTTL: []time.Duration{0, 3 * time.Second, 0, 5 * time.Second}[metaIdx]}
 		run.env, run.node = c17NewNodeEnv(cfg, metaIdx == 2, c02Setup(run.sc))
 		run.sc.env = run.env
 		defer func() { c17CloseNode(run.node) }()
@@ -279,6 +372,22 @@ func c02RandomCase(t testing.TB, r *rand.Rand, run *c02Run, cache bool) {
 		run.pubs[id] = [2]bool{sv, cv}
 		run.base(c17Op{Kind: "pub", Ch: ch, ID: id, P: &p})
 	}
+	// fresh publications (not yet published) with random filter outcomes
+	genPubs := func(ch, k int) []c02Pub {
+		var out []c02Pub
+		for ; k > 0; k-- {
+			id++
+			p := *cfg[ch]
+			sv, cv := true, true
+			if filtersLikely {
+				sv, cv = r.Intn(3) != 0, r.Intn(3) != 0
+			}
+			p.Tags = c02Tags(sv, cv)
+			run.pubs[id] = [2]bool{sv, cv}
+			out = append(out, c02Pub{ID: id, P: &p})
+		}
+		return out
+	}
 	n := 6 + r.Intn(22)
 	for k := 0; k < n; k++ {
 		ch := r.Intn(nch)
@@ -303,40 +412,47 @@ func c02RandomCase(t testing.TB, r *rand.Rand, run *c02Run, cache bool) {
 			if filtersLikely {
 				st.UseS, st.UseC = r.Intn(2) == 0, r.Intn(2) == 0
 			}
+			if !cache && env.lastEpoch[ch] != 0 && r.Intn(6) == 0 {
+				// two overlapping recoveries: leader with the current epoch, follower with another one
+				st.Kind = "pair"
+				st.Ep = env.lastEpoch[ch]
+				if top := env.lastTop[ch]; r.Intn(3) != 0 {
+					st.Off = top
+					if top > 0 {
+						st.Off = top - uint64(r.Intn(int(top)+1))
+					}
+				}
+				switch y := r.Intn(10); {
+				case y < 7:
+					st.EpF = c17Foreign + uint64(r.Intn(3))
+				case y < 9 && st.Ep > 1:
+					st.EpF = 1 + uint64(r.Intn(int(st.Ep)-1))
+				default:
+					st.EpF = 0
+				}
+				run.pair(t, st)
+				continue
+			}
+			if r.Intn(4) == 0 {
+				st.Race = genPubs(ch, 1+r.Intn(2))
+			}
 			if cache {
 				st.Kind = "cache"
 				if r.Intn(6) == 0 {
 					st.Auto, st.Off, st.Ep = true, 0, 0
 				}
-				switch r.Intn(4) {
-				case 0:
-					st.Handler = "no"
-				case 1:
+				// OnCacheEmpty is registered on the node: the handler is consulted only for an empty cache;
+				// "no" reports not populated (same decision as without a handler), "populate" publishes.
+				st.Handler = "no"
+				if r.Intn(3) == 0 {
 					st.Handler = "populate"
-					id++
-					st.HID = id
-					hp := *cfg[ch]
-					hp.Tags = c02Tags(true, true)
-					st.HP = &hp
-				default:
-					st.Handler = "none"
-				}
-				if st.Handler == "none" {
-					// OnCacheEmpty stays registered on the node; "none" is realised as "no": the handler is
-					// consulted only for an empty cache and reports not populated, which leaves the decision as is.
-					st.Handler = "no"
+					st.HPubs = genPubs(ch, 1+r.Intn(2))
 				}
 			} else {
 				st.Kind = "stream"
 				st.Reject = r.Intn(4) == 0
 			}
 			run.subscribe(t, st)
-			if st.Handler == "populate" {
-				// the id was consumed whether or not the handler ran; keep pubs map dense for filteredIDs
-				if _, ok := run.pubs[st.HID]; !ok {
-					run.pubs[st.HID] = [2]bool{true, true}
-				}
-			}
 		}
 	}
 }
@@ -388,6 +504,8 @@ func TestVerifC02(t *testing.T) {
 		totals["recovered_false"] += run.recFalse
 		totals["error_replies"] += run.errs
 		totals["with_publications"] += run.withPubs
+		totals["raced_subscribes"] += run.raced
+		totals["overlapping_pairs"] += run.pairs
 		c02Emit(w, i, run, lim, class, run.recTrue > 0 && (run.recFalse > 0 || run.errs > 0) && run.withPubs > 0, "")
 	}
 	for k, v := range totals {
@@ -399,9 +517,15 @@ func TestVerifC02(t *testing.T) {
 //   all-filtered : cache recovery scanned a non-empty history in which every scanned publication is
 //                  excluded by the tags filters, and the client is not at the current position
 //   zero-position: the client presents (0, current epoch) to an empty stream with top 0
+//   cache-gap-disconnect: the subscribe ended in a disconnect (no reply): MergePublications saw a gap
+//                  between the single recovered (older, newest VISIBLE) publication and a publication
+//                  buffered during the subscribe, the offsets in between being filtered publications
 func c03Key(run *c02Run, lim int) string {
 	key := ""
 	for _, st := range run.steps {
+		if st.Kind == "cache" && st.Res != nil && st.Res.Err == 3010 {
+			return "cache-gap-disconnect"
+		}
 		if st.Kind != "cache" || st.Res == nil || st.Res.Err != 0 {
 			continue
 		}
@@ -464,6 +588,8 @@ func TestVerifC03(t *testing.T) {
 		totals["error_replies"] += run.errs
 		totals["with_publication"] += run.withPubs
 		totals["handler_populated"] += run.populated
+		totals["handler_populated_with_filters"] += run.populatedFiltered
+		totals["raced_subscribes"] += run.raced
 		c02Emit(w, i, run, lim, class, run.recTrue > 0 && run.recFalse > 0 && run.withPubs > 0, key)
 	}
 	for k, v := range totals {
